@@ -196,6 +196,18 @@ func c20(e *Env) {
 	e.N.LoggerHook = func(string) (*zap.Logger, error) { return zap.NewNop(), nil }
 	if _, noContact := cc.opts["NO-CONTACT"]; !noContact {
 		cc.opts["contact-points"] = w.Nodes[0].IP.String()
+		_, hb := cc.opts["heartbeat-interval"]
+		_, it := cc.opts["idle-timeout"]
+		if !cc.dse && cc.wantVer >= 4 && !hb && !it && c.Choose("badcontact", 3) == 2 {
+			// An earlier contact point speaks only v3 (the proxy negotiates down for it) and then
+			// cannot serve its system tables; the proxy moves on to the next contact point, where the
+			// configured version must be what it asks for.
+			bad := w.AddNode(false)
+			bad.MaxVersion = 3
+			bad.FailControlQueries = true
+			cc.opts["contact-points"] = bad.IP.String() + "," + w.Nodes[0].IP.String()
+			e.Res.Stats["probe.c20.unusable_first_contact_point"]++
+		}
 	}
 	delete(cc.opts, "NO-CONTACT")
 	// deliver the options
